@@ -226,19 +226,23 @@ func runRawSchedule(c *fw.Ctx, cfg schedCfg, idx int) {
 			time.Sleep(time.Duration(20+d*40) * time.Microsecond)
 		}
 	}
-	h := rawBackends(server, cfg.N, delay)
-	var hc interface {
+	// Two identical handlers: the solo answers come from the first; the
+	// second meets its very first requests concurrently (lazily built state).
+	type doer interface {
 		Do(*http.Request) (*http.Response, error)
-	} = &doubles.InProc{Handler: h}
-	base := "http://dav.test"
-	if cfg.Transport == "tcp" {
-		srv := httptest.NewServer(h)
-		defer srv.Close()
-		tr := &http.Transport{MaxIdleConnsPerHost: 64}
-		defer tr.CloseIdleConnections()
-		hc = &http.Client{Transport: tr, CheckRedirect: func(*http.Request, []*http.Request) error { return http.ErrUseLastResponse }}
-		base = srv.URL
 	}
+	mkClient := func() (doer, string, func()) {
+		h := rawBackends(server, cfg.N, delay)
+		if cfg.Transport != "tcp" {
+			return &doubles.InProc{Handler: h}, "http://dav.test", func() {}
+		}
+		srv := httptest.NewServer(h)
+		tr := &http.Transport{MaxIdleConnsPerHost: 64}
+		return &http.Client{Transport: tr, CheckRedirect: func(*http.Request, []*http.Request) error { return http.ErrUseLastResponse }}, srv.URL,
+			func() { tr.CloseIdleConnections(); srv.Close() }
+	}
+	hc, base, closeSolo := mkClient()
+	defer closeSolo()
 	send := func(u int, q rawReq) (string, error) {
 		var body *bytes.Reader
 		req, err := http.NewRequest(q.Method, base+q.Path, nil)
@@ -283,6 +287,11 @@ func runRawSchedule(c *fw.Ctx, cfg schedCfg, idx int) {
 		}
 	}
 	delaying.Store(true)
+	if (cfg.Rep+cfg.N+cfg.GOMAXPROCS)%2 == 1 {
+		var closeConc func()
+		hc, base, closeConc = mkClient() // send uses these from now on
+		defer closeConc()
+	}
 	ov := newOverlap()
 	var mu sync.Mutex
 	type rawBad struct {
